@@ -275,7 +275,8 @@ func c10Worker(c *mc.Ctx) {
 	anySpec := func(*lexref.Compiled) (bool, string) { return true, "" }
 	var lf []lfam
 	rs := func(name string, r *lexref.RuleSets, limit int64) {
-		lf = append(lf, lfam{name, r.Size(), r.Get, limit, specInDomainC02})
+		// C10 is about every accepted specification: rules that can match the empty string included
+		lf = append(lf, lfam{name, r.Size(), r.Get, limit, anySpec})
 	}
 	if c.Quick() {
 		rs("r2-s2", &lexref.RuleSets{Pools: []*lexref.Pool{p2, p2}, Kinds: 2}, 0)
@@ -363,6 +364,37 @@ func c10Replay(raw json.RawMessage) *mc.Violation {
 	}
 	if probe.Spec != nil {
 		return lexReplay("C10", func(*lexref.Compiled) (bool, string) { return true, "" })(raw)
+	}
+	var real struct {
+		Real string `json:"real"`
+		Path []int  `json:"path"`
+	}
+	if json.Unmarshal(raw, &real); real.Real != "" {
+		// a bundled specification: run its checks again, report what is found for it
+		// (the same push sequence first, if it fails again)
+		ws := pipe.NewWorkspace("c10r")
+		defer ws.Close()
+		ctx := &mc.Ctx{NShards: 1}
+		c10Real(ctx, ws, "C10")
+		var first *mc.Violation
+		for i := range ctx.Stats.Violations {
+			v := &ctx.Stats.Violations[i]
+			var r2 struct {
+				Real string `json:"real"`
+				Path []int  `json:"path"`
+			}
+			json.Unmarshal(v.Case, &r2)
+			if r2.Real != real.Real {
+				continue
+			}
+			if fmt.Sprint(r2.Path) == fmt.Sprint(real.Path) {
+				return v
+			}
+			if first == nil {
+				first = v
+			}
+		}
+		return first
 	}
 	var rt struct {
 		Rows [][]int32 `json:"rows"`
